@@ -38,6 +38,19 @@ pub(crate) struct StateDescriptor {
     prev_state: Option<CallResult>,
 }
 
+/// Data that records a call as executed or failed while its arguments can't be resolved yet
+/// can't come from an honest execution, so it's rejected instead of being trusted.
+fn known_argument_hash<'hash>(argument_hash: Option<&'hash Rc<str>>) -> ExecutionResult<&'hash Rc<str>> {
+    argument_hash.ok_or_else(|| {
+        UncatchableError::InstructionParametersMismatch {
+            param: "call argument_hash",
+            expected_value: "unknown, call arguments aren't ready".to_owned(),
+            stored_value: "hash of an already executed call".to_owned(),
+        }
+        .into()
+    })
+}
+
 /// This function looks at the existing call state, validates it,
 /// and returns Ok(true) if the call should be executed further.
 pub(super) fn handle_prev_state<'i>(
@@ -64,7 +77,7 @@ pub(super) fn handle_prev_state<'i>(
                 .map_err(UncatchableError::from)?;
 
             verifier::verify_call(
-                argument_hash.as_ref().unwrap(),
+                known_argument_hash(argument_hash)?,
                 tetraplet,
                 &service_result_aggregate.argument_hash,
                 &current_tetraplet,
@@ -122,7 +135,7 @@ pub(super) fn handle_prev_state<'i>(
 
             populate_context_from_data(
                 value.clone(),
-                argument_hash.as_ref().unwrap(),
+                known_argument_hash(argument_hash)?,
                 tetraplet.clone(),
                 met_result.trace_pos,
                 met_result.source,
